@@ -136,8 +136,10 @@ def run_case(case, sched):
     _layers_max[0] = 0
     A = dgmgen.materialize(inp["dgm1"], inp.get("rep1", "f64"))
     B = dgmgen.materialize(inp["dgm2"], inp.get("rep2", "f64"))
-    SA, TB = rm.finite_part(inp["dgm1"]), rm.finite_part(inp["dgm2"])
-    n_inf = (len(inp["dgm1"]) - len(SA)) + (len(inp["dgm2"]) - len(TB))
+    # the oracle starts from the values the handed-over objects denote (narrow floats are rounded values)
+    ptsA, ptsB = dgmgen.as_points(A), dgmgen.as_points(B)
+    SA, TB = rm.finite_part(ptsA), rm.finite_part(ptsB)
+    n_inf = (len(ptsA) - len(SA)) + (len(ptsB) - len(TB))
     coords = [abs(x) for p in list(SA) + list(TB) for x in p]
     scale = max(coords) if coords else 1.0
     ref = oracle_value(SA, TB)
